@@ -721,6 +721,158 @@ fn tiny_and_octet_sweeps(ctx: &mut Ctx) {
     }
 }
 
+/// signed messages with several signature packets of which some are of a kind the reader keeps no
+/// hasher for (unknown signature version, unknown hash algorithm, unknown public-key algorithm), in
+/// every position, in one-pass and in prefixed form: read to the end, then every verify entry point with
+/// every index / number of keys
+fn mixed_known_unknown_signatures(ctx: &mut Ctx, ring: &Ring) {
+    let site = "Message::verify / verify_nested / verify_nested_explicit / verify_read over messages with known and unknown signature packets";
+    let mut rng = rand::thread_rng();
+    let Some((_, k1)) = ring.keys.first() else { return };
+    let k2 = ring.keys.get(1).map(|k| &k.1).unwrap_or(k1);
+    let pk1 = k1.to_public_key();
+    let built = guard(|| {
+        let mut b = MessageBuilder::from_bytes("", b"mixed signatures".to_vec());
+        b.sign(&k1.primary_key, Password::empty(), HashAlgorithm::Sha256);
+        b.sign(&k2.primary_key, Password::empty(), HashAlgorithm::Sha512);
+        b.sign(&k1.primary_key, Password::empty(), HashAlgorithm::Sha384);
+        b.to_vec(&mut rng).ok()
+    });
+    let Ok(Some(msg)) = built else {
+        ctx.stat("mixed_sigs:cannot_build");
+        return;
+    };
+    // split into packets (serialised one by one)
+    let pkts: Vec<(pgp::types::Tag, Vec<u8>)> = PacketParser::new(&msg[..])
+        .filter_map(|p| p.ok())
+        .filter_map(|p| {
+            use pgp::packet::PacketTrait;
+            let mut v = Vec::new();
+            p.to_writer_with_header(&mut v).ok()?;
+            Some((p.tag(), v))
+        })
+        .collect();
+    let ops: Vec<&Vec<u8>> = pkts.iter().filter(|p| p.0 == pgp::types::Tag::OnePassSignature).map(|p| &p.1).collect();
+    let sigs: Vec<&Vec<u8>> = pkts.iter().filter(|p| p.0 == pgp::types::Tag::Signature).map(|p| &p.1).collect();
+    let lit: Vec<&Vec<u8>> = pkts.iter().filter(|p| p.0 == pgp::types::Tag::LiteralData).map(|p| &p.1).collect();
+    if ops.len() != 3 || sigs.len() != 3 || lit.len() != 1 {
+        ctx.stat("mixed_sigs:unexpected_shape");
+        return;
+    }
+    // body offset of a packet written with a new-format header and a one- or two-octet length
+    let body_at = |p: &[u8]| -> usize { if p[1] < 192 { 2 } else if p[1] < 224 { 3 } else { 6 } };
+    // (name, octet offset inside the body, new value): OPS v3 = version, type, hash, pk ...; signature v4 = version, type, pk, hash
+    let ops_muts: [(&str, usize, u8); 4] = [("as-is", 0, 3), ("ops-version=5", 0, 5), ("ops-hash=99", 2, 99), ("ops-pk=99", 3, 99)];
+    let sig_muts: [(&str, usize, u8); 4] = [("as-is", 0, 4), ("sig-version=5", 0, 5), ("sig-version=23", 0, 23), ("sig-hash=99", 3, 99)];
+    let apply = |p: &Vec<u8>, m: &(&str, usize, u8)| -> Vec<u8> {
+        let mut v = p.clone();
+        let at = body_at(&v) + m.1;
+        if m.0 != "as-is" && at < v.len() {
+            v[at] = m.2;
+        }
+        v
+    };
+    let mut n = 0u64;
+    for form in ["one-pass", "prefixed"] {
+        for a in 0..4usize {
+            for b in 0..4usize {
+                for c in 0..4usize {
+                    let choice = [a, b, c];
+                    let mut bytes = Vec::new();
+                    if form == "one-pass" {
+                        // the mutation of position i goes to the i-th OPS packet; the signature packets stay
+                        for i in 0..3 {
+                            bytes.extend(apply(ops[i], &ops_muts[choice[i]]));
+                        }
+                        bytes.extend_from_slice(lit[0]);
+                        for s in &sigs {
+                            bytes.extend_from_slice(s);
+                        }
+                    } else {
+                        for i in 0..3 {
+                            bytes.extend(apply(sigs[i], &sig_muts[choice[i]]));
+                        }
+                        bytes.extend_from_slice(lit[0]);
+                    }
+                    let t = Instant::now();
+                    let r = guard(|| {
+                        let Ok(mut m) = Message::from_bytes(&bytes[..]) else { return 0usize };
+                        let mut sink = Vec::new();
+                        let _ = m.read_to_end(&mut sink);
+                        let mut acc = 0usize;
+                        acc += m.verify(&pk1).is_ok() as usize;
+                        for k in 1..=5usize {
+                            let keys: Vec<&dyn pgp::types::VerifyingKey> = (0..k).map(|_| &pk1 as &dyn pgp::types::VerifyingKey).collect();
+                            acc += m.verify_nested(&keys).map(|v| v.len()).unwrap_or(0);
+                        }
+                        for i in 0..6usize {
+                            acc += m.verify_nested_explicit(i, &pk1).is_ok() as usize;
+                        }
+                        // a fresh parse for the consuming entry point
+                        if let Ok(mut m2) = Message::from_bytes(&bytes[..]) {
+                            acc += m2.verify_read(&pk1).is_ok() as usize;
+                        }
+                        acc
+                    });
+                    n += 1;
+                    if r.is_err() || (a, b, c) == (0, 0, 0) {
+                        no_panic(ctx, site, &format!("form={form} positions=[{}, {}, {}] msg={}", if form == "one-pass" { ops_muts[a].0 } else { sig_muts[a].0 }, if form == "one-pass" { ops_muts[b].0 } else { sig_muts[b].0 }, if form == "one-pass" { ops_muts[c].0 } else { sig_muts[c].0 }, hx(&bytes)), &r, t);
+                    }
+                }
+            }
+        }
+    }
+    ctx.stat_n("mixed_sigs:messages", n);
+}
+
+/// every signature subpacket type x critical bit x body length 0..=40 x fill octet, in the hashed and
+/// in the unhashed area of v4 and v6 signatures: the per-type body parsers take whatever length the
+/// subpacket header announces
+fn subpacket_body_sweep(ctx: &mut Ctx) {
+    use crate::wire;
+    let site = "packet/signature/de.rs subpacket body parsers (every type x body length) -> write back";
+    let keyid = [1u8, 2, 3, 4, 5, 6, 7, 8];
+    let fills: &[u8] = if ctx.thorough() { &[0, 1, 2, 4, 6, 0x21, 0x7f, 0x80, 0xff] } else { &[0, 1, 4, 0xff] };
+    for id in 0u8..=127 {
+        let mut first_panic: Option<(String, String)> = None;
+        let mut n = 0u64;
+        for critical in [false, true] {
+            for len in 0..=40usize {
+                for &fill in fills {
+                    let body: Vec<u8> = (0..len).map(|i| if i == 0 { fill } else { fill.wrapping_add((i as u8) & 1) }).collect();
+                    let sp = wire::subpacket_min(id | if critical { 0x80 } else { 0 }, &body);
+                    let ctime = wire::subpacket_min(2, &[0x60, 0, 0, 1]);
+                    for (ver, area) in [(4u8, 0u8), (4, 1), (6, 0)] {
+                        let (hashed, unhashed) = if area == 0 { ([&ctime[..], &sp[..]].concat(), wire::subpacket_min(16, &keyid)) } else { (ctime.clone(), sp.clone()) };
+                        let pkt = if ver == 4 {
+                            wire::packet(2, &wire::sig_v4(4, 0, 22, 8, &hashed, &unhashed, [1, 2], None, &[wire::mpi(&[0x7F; 32]), wire::mpi(&[0x7E; 32])].concat()))
+                        } else {
+                            wire::packet(2, &wire::sig_v4(6, 0, 27, 8, &hashed, &[], [1, 2], Some(&[5; 16]), &[6; 64]))
+                        };
+                        n += 1;
+                        if let Err(p) = guard(|| parse_and_write_back(&pkt)) {
+                            if first_panic.is_none() {
+                                first_panic = Some((format!("subpacket type={id} critical={critical} body={} sig_version={ver} area={} packet={}", hx(&body), if area == 0 { "hashed" } else { "unhashed" }, hx(&pkt)), p));
+                            }
+                        }
+                    }
+                }
+            }
+        }
+        match first_panic {
+            Some((input, p)) => {
+                let r: Result<usize, String> = Err(p);
+                no_panic(ctx, site, &input, &r, Instant::now());
+            }
+            None => {
+                let ok: Result<usize, String> = Ok(0);
+                no_panic(ctx, site, &format!("subpacket type={id}: {n} bodies (lengths 0..=40, critical bit, fills {fills:?}, v4 hashed / v4 unhashed / v6 hashed)"), &ok, Instant::now());
+            }
+        }
+        ctx.stat_n("subpacket_body_sweep:packets", n);
+    }
+}
+
 /// SEIPDv2 containers (literal packet + padding packet inside) written with partial body lengths and
 /// CUT at every chunk boundary / partial-body boundary, without a final length: the reader below the
 /// decryptor fails while the message reader looks for trailing packets (D4m)
@@ -820,6 +972,8 @@ pub fn run(ctx: &mut Ctx, ring: &Ring) {
     limited_dearmor_options(ctx);
     inconsistent_secret_keys(ctx, ring);
     tiny_and_octet_sweeps(ctx);
+    subpacket_body_sweep(ctx);
+    mixed_known_unknown_signatures(ctx, ring);
     boundary_straddles(ctx, ring);
     read_after_error(ctx);
     message_sweeps(ctx, &mut rng);
